@@ -188,3 +188,91 @@ Definition chk_numspec (c : str * option dec) : Z :=
 Definition chk_strspec (c : dec * str) : Z :=
   let '(d, s) := c in
   match dec_to_string d with Some t => if str_eqb s t then 0 else 3 | None => 3 end.
+
+(* ================================================================== strengthening round: objects with several facets
+   (Model/C13Dispatch.v, Spec/C13Overlap.v).  Same codes.  `expected_obj` = (refusal admissible, what must be observable). *)
+Require Import Hdl21.Model.C13Dispatch Hdl21.Spec.C13Overlap.
+
+Definition float_annot_ok_obj (o : pyobj) : bool :=
+  match o_flt o with Some (b, r) => float_annot_ok (VFloat b r) | None => true end.
+
+(* to_scalar: the result is the object itself or a fresh Prefixed / Literal; the driver looks at it as a Prefixed first *)
+Definition chk_scalar_obj (c : pyobj * sres) : Z :=
+  let '(o, r) := c in
+  if negb (float_annot_ok_obj o) then 3 else
+  let '(may, x) := expected_obj 0 o in
+  let spec_ok :=
+    match x, r with
+    | XFree, _ => true
+    | _, SExc => may
+    | XValue d, SPre d' q => is_prefix q && deqb (dscaleb d' q) d
+    | XPrefixed d q, SPre d' q' => (q =? q') && deqb d' d
+    | XLiteral s, SLit t => str_eqb s t
+    | _, _ => false
+    end in
+  if negb spec_ok then 1 else
+  let model_ok :=
+    match to_scalar_obj o, r with
+    | Ok st, SPre d q => match o_pre st with Some p => dec_identical (number p) d && (prefix p =? q) | None => false end
+    | Ok st, SLit t => match o_pre st, o_lit st with None, Some s => str_eqb s t | _, _ => false end
+    | Error _, SExc => true
+    | _, _ => false
+    end in
+  if model_ok then 0 else 2.
+
+Definition chk_value_obj (c : pyobj * vres) : Z :=
+  let '(o, r) := c in
+  let '(may, x) := expected_obj 4 o in
+  let spec_ok :=
+    if is_free x then true
+    else if unrepresentable x then match r with VExc => true | _ => false end
+    else match x, r with
+         | _, VExc => may
+         | XOmit, VOmit => true
+         | _, VVal pv => shows x pv
+         | _, _ => false
+         end in
+  if negb spec_ok then 1 else
+  let model_ok :=
+    match export_param_value_obj o, r with
+    | Ok None, VOmit => true
+    | Ok (Some a), VVal b => pvalue_eqb a b
+    | Error _, VExc => true
+    | _, _ => false
+    end in
+  if model_ok then 0 else 2.
+
+Definition domain_free_obj (t : target) (k : str) (mx : bool * expect) : bool * expect := (fst mx, domain_free t k (snd mx)).
+
+Definition spec_inst_obj (c : ocall) (r : ires) : bool :=
+  let xs := map (fun p : str * Z * pyobj =>
+                   (fst (fst p), domain_free_obj (oc_tgt c) (fst (fst p)) (expected_obj (snd (fst p)) (snd p)))) (oc_params c) in
+  if existsb (fun kx => is_free (snd (snd kx))) xs then true
+  else
+    let must_refuse := existsb (fun kx => unrepresentable (snd (snd kx))) xs in
+    let may_refuse := existsb (fun kx => fst (snd kx)) xs in
+    match r with
+    | IRej => must_refuse || may_refuse
+    | IAcc dom nm ps =>
+        negb must_refuse && spec_ref (oc_tgt c) dom nm
+        && (length ps =? length (filter (fun kx => negb (is_omit (snd (snd kx)))) xs))%nat
+        && forallb (fun kx : str * (bool * expect) =>
+                      let '(k, (_, x)) := kx in
+                      match entries (spec_name (oc_tgt c) k) ps with
+                      | [] => is_omit x
+                      | [pv] => shows x pv
+                      | _ => false
+                      end) xs
+    end.
+
+Definition chk_inst_obj (c : ocall * ires) : Z :=
+  let '(cl, r) := c in
+  if negb (forallb (fun p : str * Z * pyobj => float_annot_ok_obj (snd p)) (oc_params cl)) then 3 else
+  if negb (spec_inst_obj cl r) then 1 else
+  let model_ok :=
+    match export_instance_obj cl, r with
+    | Ok (d, n, ps), IAcc d' n' ps' => str_eqb d d' && str_eqb n n' && params_eqb ps ps'
+    | Error _, IRej => true
+    | _, _ => false
+    end in
+  if model_ok then 0 else 2.
